@@ -88,6 +88,19 @@ Theorem C19_wellformed_result : forall i s,
 Proof. exact result_ok_spec. Qed.
 Print Assumptions C19_wellformed_result.
 
+(* "schedule matching the instance" for the object the constructor returns: for every job of the instance,
+   result.schedule[job] is the row the caller passed under that job and wraps exactly that job's operations in order;
+   every key of the caller's mapping reads back its own row and is a job of the instance; the valid-schedule accessor
+   returns that same mapping. *)
+Theorem C19_stored_schedule_matches_instance : forall i s,
+  result_ok i s = true -> keys_nodup s ->
+  (forall j, In j (inst_jobs i) ->
+     exists row, schedule_of_job i s j = Some row /\ map fst row = job_ops j /\ In (j, row) s) /\
+  (forall kv, In kv s -> schedule_of_job i s (fst kv) = Some (snd kv) /\ In (fst kv) (inst_jobs i)) /\
+  (forall s', valid_schedule_impl i s = Ok s' -> s' = s).
+Proof. exact stored_schedule_matches. Qed.
+Print Assumptions C19_stored_schedule_matches_instance.
+
 (* non-vacuity: the 2x2 instance of the test-suite meets every hypothesis, with a valid schedule of makespan 3,
    an invalid one (machine overlap) and one with an unscheduled operation *)
 Example C19_nonvacuous :
